@@ -152,6 +152,8 @@ type streamHandler struct {
 	ch     chan *goatorepo.Rpc
 	done   chan struct{}
 	cancel context.CancelFunc
+
+	halfClosed bool // the caller's trailer has been forwarded
 }
 
 // handler for a specific goat.RpcReadWriter
@@ -435,7 +437,16 @@ func (h *handler) processStreamingRpc(
 	if handler, ok := h.streams[rpc.Id]; ok {
 		if resetStream {
 			handler.cancel()
+		} else if handler.halfClosed {
+			// The caller has already ended its side of the stream. The handler is
+			// not going to read anything more, so queueing this would block the
+			// read loop (and with it the whole connection) until the handler returns.
+			log.Warn().Msgf("Server: Rpc for stream %d after its trailer: ignoring message", rpc.Id)
 		} else {
+			if rpc.GetTrailer() != nil {
+				handler.halfClosed = true
+				h.streams[rpc.Id] = handler
+			}
 			select {
 			case handler.ch <- rpc:
 			case <-handler.ctx.Done():
